@@ -303,7 +303,8 @@ int macros_get_char(AsmContext *asm_context)
     if (stack_ptr < 0) { return CHAR_EOF; }
 
     // Pull the next char off the stack
-    ch = *macros->stack[stack_ptr];
+    // (unsigned: the byte 0xff of a string is no CHAR_EOF)
+    ch = (unsigned char)*macros->stack[stack_ptr];
     macros->stack[stack_ptr]++;
 
     // If we have a char then break this loop and return (all is good)
